@@ -690,6 +690,13 @@ func (r *resolver) delayRecursiveUses(parent HasDataDefinitions, u *Uses, resolv
 // now resolved list of definitions.  There's a chance the resolved list might also have
 // placeholders so loop until all placeholders are replaced.
 func (r *resolver) fillInRecursiveDefs(root *Module) error {
+	// a placeholder is replaced once per parent, meeting it again means the groupings use each
+	// other without a node in between and replacing would never end
+	type placeholder struct {
+		parent HasDataDefinitions
+		uses   *Uses
+	}
+	replacedBefore := make(map[placeholder]bool)
 	for len(r.unresolvedUses) > 0 {
 		if r.trace {
 			fc.Debug.Printf("DEQUE %d items", len(r.unresolvedUses))
@@ -700,6 +707,10 @@ func (r *resolver) fillInRecursiveDefs(root *Module) error {
 			if r.trace {
 				fc.Debug.Printf("USE %s:%s", entry.parent.Ident(), entry.uses.Ident())
 			}
+			if replacedBefore[placeholder{entry.parent, entry.uses}] {
+				return fmt.Errorf("%s - grouping %s is defined in terms of itself", SchemaPathNoModule(entry.uses), entry.uses.Ident())
+			}
+			replacedBefore[placeholder{entry.parent, entry.uses}] = true
 			existing := entry.parent.popDataDefinitions()
 			replaced := false
 			for _, def := range existing {
